@@ -200,6 +200,23 @@ CHECKS["C06"] = dict(level="model_checking", design="5 C06", note=_EIG_NOTE, tec
          "pattern, path agreement, mass scaling. Four named deviations are known findings (rounded sort, size crash, reduced_dof "
          "scatter, dense column-sum test).")
 
+CHECKS["C09"] = dict(level="model_checking", design="5 C09",
+    note="Trusted: TLC/SANY, BigInt/Rat definitions, the TLA+ model of binary64 round-to-nearest-even (Fl) used to follow the "
+         "driver's float arithmetic exactly; user callables are the environment: their return values are action parameters (scripted "
+         "alphabets in the bounded models, recorded values in trace validation). Exhaustive models are data-free (Dim = 0); data flow "
+         "is checked along every replayed path. minInc = 0 is outside the admissible settings (ASSUME).",
+    technique="TLA+ module NewtonRaphson: _solver_NR branch by branch (25 actions) with exact modelling of its float arithmetic; TLC checks "
+              "ReportedEquilibrated, IncrementsIncreasing, Snapshots (action properties), DoneOK, LinearSolved (invariants) and Termination "
+              "(liveness under weak fairness) on scripted residual alphabets; path cover of the printed state graph replayed through the real "
+              "Analysis driver with scripted stub callables, and real non-linear runs recorded through wrapper callables, all validated by "
+              "TLC against Trace_NewtonRaphson",
+    text="All interleavings of converged / diverged / too-slow / iteration-limited steps over dyadic residual alphabets, line search on/off, "
+         "modified/full Newton, tangent refresh intervals and increment settings are explored by TLC (about 1.2e5 states quick, 1e6 thorough); "
+         "every action is taken; about 700 behaviours are replayed through the real driver with stubs that realise the scripted residuals, "
+         "check every argument they receive and scribble on arrays afterwards, and genuine 1-dof springs plus Panel.static(NLgeom=True) runs "
+         "are validated as traces (re-evaluated residual of every reported pair < absTOL). Stopping short of full load and initialInc > 1 "
+         "are the named deviations KF_C09_StopsShortOfFullLoad / KF_C09_InitialIncAboveOne (known findings).")
+
 NOT_YET = {}
 
 NA = {
